@@ -264,12 +264,18 @@ def generate(rng, opts=None):
                          'val': [rng.randrange(-2, 3) for _ in range(size)], 'ref': None, 'ref0': None, 'res_ref': None})
             comp['outs'].append(oid)
             rowA, rowS = [], []
+            # some bilinear components declare NO partial of their second residual wrt any input: that state depends on the
+            # inputs only through its coupling with the first state (sparse declared partials of an implicit component)
+            bil_sparse = kind == 'bil' and k == 1 and rng.random() < (.35 if o.bil_sparse is None else o.bil_sparse)
             for iid in comp['ins']:
                 isz = int(np.prod(ins[iid]['shape']))
                 A = [[rng.choice([0, 0, 1, 1, -1, 2]) for _ in range(isz)] for _ in range(size)]
                 st = rng.choice(o.storage or STORAGE[:7])
                 if kind == 'bil':
                     st = 'dense'
+                if bil_sparse:
+                    A = [[0] * isz for _ in range(size)]
+                    st = 'rowscols'
                 if st == 'diag' and (isz != size):
                     st = 'dense'
                 if st == 'diag':
@@ -286,6 +292,9 @@ def generate(rng, opts=None):
                 if k == 0:
                     # keep the first state away from zero (it divides the second residual equation)
                     comp['b'][0] = [rng.choice([3, 5, -5, 7]) for _ in range(size)]
+                elif bil_sparse:
+                    comp['b'][1] = [rng.choice([1, 2, -3]) for _ in range(size)]
+                    comp['mf'] = False
         comps.append(comp)
     md = {'comps': comps, 'outs': outs, 'ins': ins, 'groups': gpaths, 'cycle': False,
           'solvers': {}, 'desvars': [], 'responses': []}
